@@ -464,3 +464,137 @@ func ruleParserRecursionCapped(c *Ctx) {
 	c.check(n > 0 && okc, R, "parsePattern:recursion-capped", pos, fmt.Sprintf("%d recursive call(s), each after a raising test of a counter against a constant", n),
 		"parsePattern calls itself for every '(' without a raising depth test before the call: a pattern of a few million opening parentheses exhausts the Go stack — 'fatal error: stack overflow', which pcall cannot catch")
 }
+
+// ruleHandlerHasFrames: F136. C05 "xpcall's handler runs exactly once … and its result is what the
+// caller receives", whatever the error — also "stack overflow". The handler is called from PCall's
+// recovery with the failed call's frames still in place, so when the call stack is full the recovery
+// makes room first: the handler's call is dominated by a test of stack.IsFull() whose true arm lowers the
+// stack pointer.
+func ruleHandlerHasFrames(c *Ctx) {
+	const R = "R05-handlerarm"
+	p := c.P
+	pcall := c.need(R, "lua", "(*LState).PCall")
+	callF := p.Fn("lua", "(*LState).Call")
+	if pcall == nil || callF == nil {
+		return
+	}
+	found, okc := false, false
+	var where ssa.Instruction
+	withClosures(pcall, func(fn *ssa.Function) {
+		if fn == pcall {
+			return
+		}
+		g := p.G(fn)
+		for _, cl := range callsTo(fn, callF) {
+			// the handler call: Call(1, 1)
+			a, okA := constInt(cl.Call.Args[1])
+			b, okB := constInt(cl.Call.Args[2])
+			if !okA || !okB || a != 1 || b != 1 || !g.Live(cl) {
+				continue
+			}
+			found = true
+			where = cl
+			allInstrs(fn, func(in ssa.Instruction) {
+				iff, ok := in.(*ssa.If)
+				if !ok || !g.Dominates(in, cl) {
+					return
+				}
+				cc, ok := iff.Cond.(*ssa.Call)
+				if !ok {
+					return
+				}
+				name := ""
+				if cc.Call.IsInvoke() {
+					name = cc.Call.Method.Name()
+				} else if sc := cc.Call.StaticCallee(); sc != nil {
+					name = sc.Name()
+				}
+				if name != "IsFull" {
+					return
+				}
+				arm := iff.Block().Succs[0]
+				allInstrs(fn, func(x ssa.Instruction) {
+					if !g.BlockDom(arm, x.Block()) {
+						return
+					}
+					if cx := callOf(x); cx != nil {
+						n2 := ""
+						if cx.IsInvoke() {
+							n2 = cx.Method.Name()
+						} else if sc := cx.StaticCallee(); sc != nil {
+							n2 = sc.Name()
+						}
+						if n2 == "SetSp" || n2 == "Pop" {
+							okc = true
+						}
+					}
+				})
+			})
+		}
+	})
+	pos := p.pos(pcall.Pos())
+	if where != nil {
+		pos = p.ipos(where)
+	}
+	c.Sites++
+	c.check(found && okc, R, "PCall:handler-gets-frames-on-a-full-call-stack", pos, "the handler's call follows a test of stack.IsFull() whose true arm frees frames",
+		"PCall's recovery calls the message handler without making room on a full call stack: when the error is 'stack overflow' the handler's own call overflows again, the handler never runs and xpcall returns the raw message")
+}
+
+// ruleResumeConsultsContext: F137 (R11-exit for the third entry point named by C11: "the running
+// DoString/PCall/Resume returns an error carrying the context's reason"). After the coroutine has run,
+// every way of LState.Resume to a return that does not report an error reads LState.ctx.
+func ruleResumeConsultsContext(c *Ctx) {
+	const R = "R11-exit"
+	p := c.P
+	fn := c.need(R, "lua", "(*LState).Resume")
+	run := p.Fn("lua", "threadRun")
+	ctxF := p.Field("lua", "LState", "ctx")
+	if fn == nil || run == nil || ctxF == nil {
+		c.und(R, "Resume:anchors", "-", "threadRun / LState.ctx not found")
+		return
+	}
+	errState := int64(-1)
+	if cst, ok := p.Pkg("lua").Types.Scope().Lookup("ResumeError").(*types.Const); ok {
+		if v, ok := constValInt(cst); ok {
+			errState = v
+		}
+	}
+	g := p.G(fn)
+	reads := func(in ssa.Instruction) bool {
+		if u, ok := in.(*ssa.UnOp); ok && u.Op == token.MUL {
+			if fa, ok := u.X.(*ssa.FieldAddr); ok && fieldOf(fa) == ctxF {
+				return true
+			}
+		}
+		return false
+	}
+	success := func(in ssa.Instruction) bool {
+		r, ok := in.(*ssa.Return)
+		if !ok || len(r.Results) == 0 {
+			return false
+		}
+		k, isK := constInt(r.Results[0])
+		return !isK || k != errState
+	}
+	n, okc := 0, true
+	var where ssa.Instruction
+	for _, cl := range callsTo(fn, run) {
+		if !g.Live(cl) {
+			continue
+		}
+		n++
+		b, i := after(cl)
+		if ok, wit := g.MustPassBefore(b, i, reads, success); !ok {
+			okc = false
+			where = wit
+		}
+	}
+	pos := p.pos(fn.Pos())
+	if where != nil {
+		pos = p.ipos(where)
+	}
+	c.Sites++
+	c.check(n > 0 && okc && errState >= 0, R, "Resume:context-consulted-after-the-run", pos, "after the coroutine has run, LState.ctx is read on every way to a return that reports no error",
+		"LState.Resume can report ResumeOK/ResumeYield without having looked at LState.ctx after the coroutine ran: a body that ends by tail-calling pcall (which swallowed the cancellation) finishes normally and Resume returns false, 'context canceled' as ordinary values")
+}
